@@ -22,7 +22,7 @@ var propC02 = &modelProp{
 	nt: func(e *Env) bool {
 		return (e.flags["query-partial-result"] > 0 || e.flags["sweep-query-partial-result"] > 0) && (e.flags["update-moved-indexed-key"] > 0 || e.flags["delete"] > 0)
 	},
-	rule:  "histories (inserts, key-moving updates, deletes, batches, reopen) with tie- and boundary-heavy values; explicit query ops are chains of up to 3 {path,operator,probe} leaves joined by And/Or over top-level, nested, through-nil-pointer and embedded paths, indexed or not, probes from tiny/neighbour/extreme/free sources, consumed by Collect/Assign/One/AssignOne/Len/Delete; plus after every op an automatic sweep: for every indexed path and 11 fixed (mostly unindexed) paths, every operator x {every distinct stored value, its successor, min, max, below-min, above-max}. Oracle: model predicate over all stored objects: result multiset == expected (soundness and completeness), Len, And = intersection, Or = duplicate-free union, search-delete removes exactly the matches, Control stays nil. The same program is also run with the index assignment of non-unique paths complemented (metamorphic: indexing must not change results). Non-trivial: >=1 query (explicit or sweep) with a non-empty, non-total result in a case with >=1 key-moving update or delete. Distinct by program hash.",
+	rule:  "histories (inserts, key-moving updates, deletes, batches, reopen) with tie- and boundary-heavy values; explicit query ops are chains of up to 3 {path,operator,probe} leaves joined by And/Or over top-level, nested, through-nil-pointer and embedded paths, indexed or not, probes from tiny/neighbour/extreme/free sources, consumed by Collect/Assign/One/AssignOne/Len/Delete; plus after every op an automatic sweep: for every indexed path and 11 fixed (mostly unindexed) paths, every operator x {every distinct stored value, its successor, min, max, below-min, above-max}. Oracle: model predicate over all stored objects: result multiset == expected (soundness and completeness), Len, And = intersection, Or = duplicate-free union, search-delete removes exactly the matches, Control stays nil. The same program is also run with the index assignment of non-unique paths complemented (metamorphic: indexing must not change results). TestC02Sparse: a type whose members are tagged omitempty / renamed and whose nil pointer struct is omitted from the file; zero values are frequent; every comparison on unindexed, indexed, nested and through-nil paths equals a predicate on the rows - on a live handle, after a search-delete over an unindexed path and on a cold handle. Query consumers also include Expects / ExpectsZeroOrN / AssignUnique with exact oracles, connectives through Search.Operation, Reverse requested twice, and a derived search that is limited, reversed, given a wrong expectation and consumed before the base search is collected again. Non-trivial: >=1 query (explicit or sweep) with a non-empty, non-total result in a case with >=1 key-moving update or delete. Distinct by program hash.",
 	after: nil,
 }
 
